@@ -109,4 +109,32 @@ Section CallBracket.
       exists fv, vs, rv, d_ops, d_ann, d_pre, d_callee, d_post. split; [exact L|]. split; [exact A1|]. split; [exact A2|exact A3].
     - intros fid a. unfold ref_call. apply grows_fun. exact Hfs.
   Qed.
+
+  (* a covered program function: entry is reported before anything its body reports; when control reaches the end of the
+     body, function_exit and implicit_return are reported last and the call returns None; when an exception leaves the
+     body nothing is reported after what the body reported (no exit is invented) and the exception propagates *)
+  Theorem covered_function_frames (H : list string) (funs : list fundef) (f fid : nat) (args : list (d_val D)) fd (s s' : state D) r :
+    forallb (fun fd => src_ss (f_body fd)) funs = true ->
+    nth_error funs fid = Some fd -> length args = length (f_params fd) ->
+    (mem_str "function_enter" H || mem_str "implicit_return" H) = true ->
+    ref_call H funs (S f) fid args s = (r, s') ->
+    exists (rb : res (d_val D) unit) d_ann d_enter d_body d_tail,
+      dels (eng s') = dels (eng s) ++ d_ann ++ d_enter ++ d_body ++ d_tail
+      /\ Forall (fun d => d_hook d = "runtime_event" \/ d_hook d = "control_flow_event") d_ann
+      /\ Forall (fun d => d_hook d = "function_enter") d_enter
+      /\ match rb with
+         | Ok _ => (exists a x i, d_tail = a ++ x ++ i
+                                 /\ Forall (fun d => d_hook d = "runtime_event" \/ d_hook d = "control_flow_event") a
+                                 /\ Forall (fun d => d_hook d = "function_exit") x /\ Forall (fun d => d_hook d = "implicit_return") i)
+                   /\ r = Ok (d_const D KNone)
+         | Exc e => d_tail = [] /\ r = Exc e
+         | Ret v => d_tail = [] /\ r = Ok v
+         | _ => d_tail = []
+         end.
+  Proof.
+    intros Hfs Efd Hlen Hon E. unfold ref_call in E.
+    eapply fun_bracket_events in E; eauto.
+    destruct E as [rb [d_ann [d_enter [d_body [d_tail [L [A1 [A2 [_ Hr]]]]]]]]].
+    exists rb, d_ann, d_enter, d_body, d_tail. split; [exact L|]. split; [exact A1|]. split; [exact A2|exact Hr].
+  Qed.
 End CallBracket.
